@@ -235,14 +235,33 @@ def make_runner(env, cfg=None):
                 env.on_start = None
                 h()
 
+        def _on_simulate_current_params_start(self, current_params):
+            env.log.append(("hook", dict(
+                name="start", v=self._variation_of(current_params),
+                run=env.run_no)))
+
+        def _on_simulate_current_params_finish(self, current_params,
+                                               current_params_sim_results):
+            env.log.append(("hook", dict(
+                name="finish", v=self._variation_of(current_params),
+                run=env.run_no)))
+
+        def _on_simulate_finish(self):
+            env.log.append(("hook", dict(name="sim_finish", v=None,
+                                         run=env.run_no)))
+
         def _keep_going(self, current_params, current_sim_results,
                         current_rep):
             v = self._variation_of(current_params)
             ids = current_sim_results["ids"][-1].get_result()
             sumv = current_sim_results["sumv"][-1].get_result()
             rr = current_sim_results["ratio"][-1]
+            nskip = None
+            if "num_skipped_reps" in current_sim_results.get_result_names():
+                nskip = current_sim_results["num_skipped_reps"][-1].get_result()
             env.log.append(("kg", dict(run=env.run_no, v=v, rep=current_rep,
-                                       ids=digits4(ids), sumv=sumv)))
+                                       ids=digits4(ids), sumv=sumv,
+                                       nskip=nskip)))
             keep = stop_model(env.cur["cfg"], v, current_rep, sumv,
                               (rr._value, rr._total))
             if env.cur["cfg"]["stop"].get("ret") == "npbool":
